@@ -1,6 +1,6 @@
 #!/bin/bash
 # runs every thorough check sequentially, evidence to a scratch dir (background validation; not the registered evidence)
 mkdir -p /tmp/thorough_ev
-for i in $(seq -w 1 20); do
+for i in ${CHECKS:-$(seq -w 1 20)}; do
   /usr/bin/time -f "C$i %es" /venv/bin/python run.py C$i --tier thorough --evidence-dir /tmp/thorough_ev 2>&1 | tail -3 | cut -c1-400
 done
